@@ -572,6 +572,8 @@ def mounted_histories(ctx):
 
 def run(ctx):
     core.use_repo()
+    import translate_mtime
+    translate_mtime.check(ctx)       # get_modified_time (and the delegating methods) compiled from _file_store.py / _path_source.py and linked to Codec.store_mtime
     mounted_histories(ctx)
     mtime_zones(ctx)
     size_limited_writes(ctx)
